@@ -8,7 +8,7 @@ MC_DomH5 == {9}
 MC_DomHDKG == {4}
 MC_DomHR == {1}
 MC_DomHID == {1}
-MC_Probes == {"agg_maps","sign_kp","vshare","dkg_lens","recon","repair","refresh"}
+MC_Probes == {"agg_maps","sign_kp","vshare","dkg_lens","recon","repair","refresh","ss_double"}
 MC_EMIT == TRUE
 
 ====
